@@ -1,5 +1,6 @@
 //! Shared machinery of the conformance harness: deterministic scheduler over
 //! `metrics::verif::point()` sites, ndjson trace writer, small helpers.
+pub mod promparse;
 pub mod sched;
 pub mod trace;
 
